@@ -318,7 +318,8 @@ def call_builtin(ip, name, args, kwargs, frame):
         return py_dict(ip, args, kwargs, frame)
     if name == 'set':
         if not args:
-            return Obj('set', items=[])
+            # an initially empty set of strings lives in the heap as a dict (member -> true): it may be loop-carried
+            return S(ctx.alloc_dict([]))
         return Obj('set', items=concrete_seq(ip, args[0]))
     if name == 'abs':
         val = norm(ip, args[0])
@@ -589,6 +590,7 @@ def py_sorted(ip, args, kwargs):
         h = ctx.heap
         n = h.dnk(ref)
         keys = SORTED_KEYS(h.term(), ref)
+        ctx.ghost['last_sorted'] = (keys, ref, n, h)
         hook = ctx.cfg.hooks.get('sorted_keys')
         if hook is not None:
             hook(ip, ref, keys, n)
@@ -883,6 +885,10 @@ def dict_method(ip, d, name, args, kwargs):
                 ctx.heap = ctx.heap.dset(ref, key_term(ip, norm(ip, kv[0])), ctx.stored(kv[1]))
             return C(None)
         raise OutOfReach('dict.update() argument')
+    if name == 'add':
+        # heap-allocated set (see the `set` builtin)
+        ctx.heap = ctx.heap.dset(ref, key_term(ip, norm(ip, args[0])), VBool(z3.BoolVal(True)))
+        return C(None)
     if name == 'pop':
         raise OutOfReach('dict.pop')
     raise OutOfReach(f'dict method {name}')
